@@ -75,9 +75,19 @@ func (g *Gen) genDatasetHistory() {
 		case 1:
 			query(h)
 		case 2:
-			if n[h] > 0 {
-				g.emit("dmin %d", h)
-				g.emit("dmax %d", h)
+			if n[h] > 0 { // either extreme alone, or both in either order: each must sort for itself
+				switch r.Intn(4) {
+				case 0:
+					g.emit("dmin %d", h)
+				case 1:
+					g.emit("dmax %d", h)
+				case 2:
+					g.emit("dmax %d", h)
+					g.emit("dmin %d", h)
+				default:
+					g.emit("dmin %d", h)
+					g.emit("dmax %d", h)
+				}
 			}
 		case 3:
 			g.emit("dsum %d", h)
@@ -105,6 +115,19 @@ func (g *Gen) genDatasetHistory() {
 		if n[h] > 0 {
 			g.emit("dmin %d", h)
 			g.emit("dmax %d", h)
+		}
+	}
+	// a last addition followed by one single query of a random kind
+	for h := 1; h <= 2; h++ {
+		g.emit("dadd %d %s", h, hexF(val()))
+		n[h]++
+		switch r.Intn(3) {
+		case 0:
+			g.emit("dmax %d", h)
+		case 1:
+			g.emit("dmin %d", h)
+		default:
+			query(h)
 		}
 	}
 }
